@@ -99,7 +99,7 @@ fn os_err(what: &str) -> String {
 
 /// chroot into a fresh private directory below `base`, chdir("/"), drop to nobody. Every step is
 /// verified; any failure is an error (the caller then refuses to run cases).
-fn enter_jail(base: &str) -> Result<(), String> {
+pub(crate) fn enter_jail(base: &str) -> Result<(), String> {
     use std::os::unix::ffi::OsStrExt;
     if JAILED.load(Ordering::SeqCst) {
         return Ok(());
@@ -167,7 +167,7 @@ fn enter_jail(base: &str) -> Result<(), String> {
 }
 
 /// Belt and braces, checked before every work unit.
-fn still_jailed() -> Result<(), String> {
+pub(crate) fn still_jailed() -> Result<(), String> {
     if !JAILED.load(Ordering::SeqCst) {
         return Err("jail: not entered".into());
     }
@@ -1741,7 +1741,7 @@ fn remove_stale_bases(dir: &Path) {
 /// Directory under which the workers create their jails. tmpfs is ~20x faster than the ext4 work
 /// directory for the tens of thousands of tree rebuilds, so `/dev/shm` is preferred when usable;
 /// `TV_C19_TREE_DIR` overrides; the fall-back is the engine's work directory (temp dir for a replay).
-fn jail_base(ctx: Option<&Ctx>) -> PathBuf {
+pub(crate) fn jail_base(ctx: Option<&Ctx>) -> PathBuf {
     let leaf = format!("tv-c19-confine-{}", std::process::id());
     if let Ok(d) = std::env::var("TV_C19_TREE_DIR") {
         if !d.is_empty() {
@@ -1777,7 +1777,7 @@ fn pool_cfg(base: &Path, procs: usize, deadline: Option<Instant>) -> PoolCfg {
 
 /// Removes the jails of this run (parent side, after the workers are gone). `remove_dir_all` does
 /// not follow symbolic links, and only our own freshly created directory is named.
-fn remove_base(base: &Path) {
+pub(crate) fn remove_base(base: &Path) {
     if base.file_name().map(|n| n.to_string_lossy().starts_with("tv-c19-confine-") || n == "confine").unwrap_or(false) {
         let _ = std::fs::remove_dir_all(base);
     }
